@@ -1,8 +1,11 @@
 #!/bin/bash
-# evaluates every mutant under /tmp/mut_Cxx_out/m{1,2} that has not been evaluated yet
-for d in /tmp/mut_C*_out/m*; do
+# usage: evalall.sh <prefix> <offset>   e.g. evalall.sh /tmp/mutb 2  -> /tmp/mutb_C07_out/m1 is filed as C07-m3
+# evaluates every mutant under <prefix>_Cxx_out/m* that has not been evaluated yet (one at a time: /repo is patched)
+PFX=${1:-/tmp/mut}; OFF=${2:-0}
+exec 9>/tmp/evalall.lock; flock -n 9 || { echo "another evalall is running"; exit 1; }
+for d in ${PFX}_C*_out/m*; do
   [ -f $d/patch.diff ] && [ -f $d/demo_test.go ] || continue
-  prop=$(echo $d | sed 's,/tmp/mut_\(C[0-9]*\)_out/.*,\1,'); name=$prop-$(basename $d)
+  prop=$(echo $d | sed 's,.*_\(C[0-9]*\)_out/.*,\1,'); n=$(basename $d | tr -d m); name=$prop-m$((n+OFF))
   [ -f $d/.evaluated ] && continue
   THOROUGH=0 /verif/tools/evalmut.sh $d $prop $name >> /tmp/evalall.log 2>&1
   touch $d/.evaluated
